@@ -536,6 +536,10 @@ fn receiver(spec: &CaseSpec, out: &Outcome, a: &mut Analysis) {
             Some(f) => a.fail("FINAL_CONTENT", log.len(), format!("upload acknowledged to the end but the file holds {} bytes differing from the {} sent", f.len(), sent.len())),
             None => a.fail("FINAL_CONTENT", log.len(), "upload acknowledged to the end but the file does not exist".into()),
         }
+    } else if out.end == EndHow::Capped && !a.capped_with_progress && matches!(out.peer, PeerState::GaveUp | PeerState::Aborted) && spec.clean && out.file_after.is_some() {
+        // the client has given up but the worker neither ended nor cleaned up within the simulation budget
+        a.hit("CLEANUP");
+        a.fail("CLEANUP", log.len(), format!("upload failed (client {:?}) but the worker never ended, so the partial file was not removed", out.peer));
     } else if out.end == EndHow::Joined {
         a.hit("CLEANUP");
         a.class(if spec.clean { "failed-upload-clean" } else { "failed-upload-keep" });
